@@ -139,16 +139,18 @@ impl VisitorMut for AstVerifier {
                 let number = match text.as_str().parse::<f64>() {
                     Ok(num) => num.to_string(),
                     // Try parsing as Hex (0x)
-                    Err(_) => match i64::from_str_radix(&text.as_str()[2..], 16) {
+                    Err(_) => match i64::from_str_radix(text.as_str().get(2..).unwrap_or(""), 16) {
                         Ok(num) => num.to_string(),
                         // If in Luau, try parsing as binary (0b)
                         #[cfg(feature = "luau")]
-                        Err(_) => match i64::from_str_radix(&text.as_str()[2..], 2) {
+                        Err(_) => match i64::from_str_radix(text.as_str().get(2..).unwrap_or(""), 2) {
                             Ok(num) => num.to_string(),
-                            Err(_) => unreachable!(),
+                            // Too large for an i64, a hex float, a LuaJIT imaginary...: the formatter
+                            // leaves such literals as written, so compare them as written
+                            Err(_) => text.to_string(),
                         },
                         #[cfg(not(feature = "luau"))]
-                        Err(_) => unreachable!(),
+                        Err(_) => text.to_string(),
                     },
                 };
 
